@@ -402,4 +402,89 @@ def r19_7(ctx: Ctx) -> RuleResult:
     return rr
 
 
-RULES = [r19_1, r19_2, r19_3, r19_4, r19_5, r19_6, r19_7]
+def r19_8(ctx: Ctx) -> RuleResult:
+    """Projections are rebuilt from the location parts of the selected matches: the parts the selectors produce are
+    the RFC's (a negative index is located from the start), on covering small documents (= R1.14)."""
+    from .c01 import r1_14
+
+    return r1_14(ctx, "R19.8")
+
+
+def r19_9(ctx: Ctx) -> RuleResult:
+    """A level of the projection becomes an array only when its keys are *array indices*, i.e. ints (the parts of
+    matched array elements); an object whose member names happen to be digit strings stays an object.  The return that
+    builds the list in `_fix_sparse_arrays` must be reached under an `isinstance(<key>, int)` test."""
+    from .common import isinstance_classes
+    from .common import path_conditions
+
+    rr = RuleResult("R19.9", "only levels keyed by int indices become arrays", floor=1)
+    fn = ctx.repo.require_func("jsonpath.fluent_api._fix_sparse_arrays")
+    obj = fn.node.args.args[0].arg
+    n = 0
+    for r in [x for x in ast.walk(fn.node) if isinstance(x, ast.Return)]:
+        v = r.value
+        is_list_from_values = isinstance(v, (ast.ListComp, ast.List)) or (isinstance(v, ast.Call) and callee_name(v) == "list")
+        if not is_list_from_values or f"{obj}.values()" not in ast.unparse(v):
+            continue
+        n += 1
+        ok = False
+        for t, b in path_conditions(fn.node, r):
+            if b and isinstance(t, ast.Call) and callee_name(t) == "isinstance" and len(t.args) == 2 and ast.unparse(t.args[1]) == "int":  # noqa: PLR2004
+                ok = True
+        if ok:
+            rr.ok(fn.loc(r), "a mapping becomes an array only under isinstance(<key>, int)")
+        else:
+            conds = [short(t) for t, b in path_conditions(fn.node, r) if b]
+            rr.bad(fn, r, f"a mapping is turned into an array under {conds or 'no test'} - not under a test that its keys are ints: an object whose "
+                   "first member name is a digit string (`{\"0\": ...}`, `{\"2024\": ...}`) loses its member names", construct=f"_fix_sparse_arrays: list under {conds}")
+    if n == 0:
+        raise AnalysisError("R19.9: the mapping-to-array conversion was not found in _fix_sparse_arrays")
+    return rr
+
+
+def r19_10(ctx: Ctx) -> RuleResult:
+    """Nothing selected, nothing projected: the value a projection is built in starts empty and is written only by the
+    insertion helper, once per selected node.  In `_select` no other statement may store into it (directly, through an
+    alias, or with `setdefault` / `update`): a path laid down before anything is selected makes an empty projection
+    look like a result."""
+    rr = RuleResult("R19.10", "a projection is written only by inserting selected nodes", floor=1)
+    fn = ctx.repo.require_func("Query._select")
+    # names that hold the projection under construction: initialised to an empty dict display, and their aliases
+    holders: Set[str] = set()
+    for a in ast.walk(fn.node):
+        if isinstance(a, (ast.Assign, ast.AnnAssign)):
+            tgt = (a.targets[0] if isinstance(a, ast.Assign) else a.target)
+            if isinstance(tgt, ast.Name) and isinstance(a.value, ast.Dict) and not a.value.keys:
+                holders.add(tgt.id)
+    if not holders:
+        raise AnalysisError("R19.10: _select no longer builds its projections in an empty dictionary")
+    changed = True
+    while changed:
+        changed = False
+        for a in ast.walk(fn.node):
+            if isinstance(a, ast.Assign) and isinstance(a.targets[0], ast.Name) and a.targets[0].id not in holders:
+                v = a.value
+                root = v
+                while isinstance(root, (ast.Call, ast.Attribute, ast.Subscript)):
+                    root = root.func if isinstance(root, ast.Call) else root.value
+                if isinstance(root, ast.Name) and root.id in holders and not (isinstance(v, ast.Call) and callee_name(v) in ("_fix_sparse_arrays", "deepcopy", "copy")):
+                    holders.add(a.targets[0].id)
+                    changed = True
+    bad = []
+    for n in ast.walk(fn.node):
+        if isinstance(n, ast.Subscript) and isinstance(n.ctx, (ast.Store, ast.Del)) and isinstance(n.value, ast.Name) and n.value.id in holders:
+            bad.append(n)
+        elif isinstance(n, ast.Call) and isinstance(n.func, ast.Attribute) and n.func.attr in MUTATORS and isinstance(n.func.value, ast.Name) and n.func.value.id in holders:
+            bad.append(n)
+    inserts = [c for c in calls(fn.node, "_patch_obj") if len(c.args) >= 2 and isinstance(c.args[1], ast.Name) and c.args[1].id in holders]  # noqa: PLR2004
+    if not inserts:
+        raise AnalysisError("R19.10: _select no longer inserts selected nodes with _patch_obj(parts, <projection>, value)")
+    if bad:
+        rr.bad(fn, bad[0], f"`{short(bad[0])}` writes into the projection outside the insertion of a selected node: a match under which nothing is "
+               "selected then yields a projection (`{\"meta\": {}}`) instead of none", construct=f"_select: {short(bad[0], 50)}")
+    else:
+        rr.ok(fn.loc(), f"_select: the projection ({sorted(holders)}) is written by {len(inserts)} _patch_obj call(s) only")
+    return rr
+
+
+RULES = [r19_1, r19_2, r19_3, r19_4, r19_5, r19_6, r19_7, r19_8, r19_9, r19_10]
